@@ -484,6 +484,10 @@ fn check(acc: &mut Acc, c: &Case) {
         let (a, b) = (collapse(&rt), collapse(&ft));
         let n = a.len().min(b.len());
         let limited = rend == "step limit" || fend == "step limit";
+        if limited {
+            acc.count("runs_cut_at_horizon", 1);
+            acc.cap("C06: non-terminating runs are compared up to a horizon of 300 native instructions");
+        }
         let same_trace = if limited { a[..n.saturating_sub(1)] == b[..n.saturating_sub(1)] } else { a == b };
         if c.manual != 2 {
             if !same_trace {
